@@ -29,9 +29,14 @@ PA == <<94, 97, 124, 99, 36>>                            \* ^a|c$
 PI == <<40, 63, 105, 41, 97, 43>>                        \* (?i)a+
 PS == <<97, 47, 98>>                                     \* a/b  (written a\/b)
 PN == <<40, 97, 40, 98, 41, 63, 41, 43>>                 \* (a(b)?)+
-Patterns == {P0, P1, P2, P3, PE, PA, PI, PN}
+PQ == <<40, 94, 97, 41, 124, 97>>                        \* (^a)|a   the same text matched with and without its group
+PL == <<94, 97, 98, 36>>                                 \* ^ab$    a fully anchored literal
+PL1 == <<94, 97>>                                        \* ^a
+PL2 == <<98, 36>>                                        \* b$
+PB == <<40, 97, 41, 98, 124, 97>>                        \* (a)b|a
+Patterns == {P0, P1, P2, P3, PE, PA, PI, PN, PQ, PL, PL1, PL2, PB}
 
-Subjects == {<<>>, <<97>>, <<97, 98>>, <<97, 98, 99>>, <<99, 97, 98, 97>>, <<97, 98, 99, 97, 98, 99, 97, 98, 99, 97, 98, 99>>, <<120, 65, 97, 233, 97, 98>>,
+Subjects == {<<97, 98, 97>>, <<120, 97, 98, 120>>, <<97, 98, 97, 98>>, <<>>, <<97>>, <<97, 98>>, <<97, 98, 99>>, <<99, 97, 98, 97>>, <<97, 98, 99, 97, 98, 99, 97, 98, 99, 97, 98, 99>>, <<120, 65, 97, 233, 97, 98>>,
              <<98, 98>>, <<97, 47, 98>>, <<99>>}
 
 TUnits == {<<36>>, <<48>>, <<49>>, <<50>>, <<120>>}
@@ -41,8 +46,8 @@ ExtraTemplates == {<<36, 49, 50>>, <<36, 49, 51>>, <<36, 49, 48>>, <<36, 57>>, <
 
 Limits == {IntV(0), IntV(1), IntV(2), IntV(4), IntV(0 - 1), Num(3, 2)}
 
-Init == /\ \/ \E t \in Templates, p \in {P0, P1, P2, P3, P12} : case = MkCase(F("replace", <<S, RX(p), NStr(Tpl(t))>>), Str(<<97, 98, 99, 97, 98, 99, 97, 98, 99, 97, 98, 99>>))
-           \/ \E t \in ExtraTemplates, p \in {P0, P1, P2, P3, P12}, s \in Subjects : case = MkCase(F("replace", <<S, RX(p), NStr(t)>>), Str(s))
+Init == /\ \/ \E t \in Templates, p \in {P0, P1, P2, P3, P12, PQ, PB} : case = MkCase(F("replace", <<S, RX(p), NStr(Tpl(t))>>), Str(<<97, 98, 99, 97, 98, 99, 97, 98, 99, 97, 98, 99>>))
+           \/ \E t \in ExtraTemplates \cup {<<60, 36, 49, 62>>}, p \in {P0, P1, P2, P3, P12, PQ, PB}, s \in Subjects : case = MkCase(F("replace", <<S, RX(p), NStr(t)>>), Str(s))
            \/ \E p \in Patterns, s \in Subjects : case = MkCase(F("match", <<S, RX(p)>>), Str(s))
            \/ \E p \in Patterns, s \in Subjects, l \in Limits : case = MkCase(F("match", <<S, RX(p), NNum(l)>>), Str(s))
            \/ \E p \in Patterns \cup {PS}, s \in Subjects : case = MkCase(F("contains", <<S, RX(p)>>), Str(s))
